@@ -246,6 +246,28 @@ pub fn sign_via_key(
     (out, after)
 }
 
+/// One `SigningKey` object kept alive over several `try_sign_with_aux` calls; `aux[i]` is the
+/// buffer content handed to call i (None = no aux). Returns per call (signature outcome, key bytes).
+pub fn sign_chain_same_instance(h: HashId, sk: &[u8], msgs: &[Vec<u8>], aux: &[Option<Vec<u8>>]) -> Out<Vec<(Option<Vec<u8>>, Vec<u8>)>> {
+    with_hash!(h, H => {
+        guard(|| {
+            let mut key = SigningKey::<H>::from_bytes(sk).map_err(|_| ())?;
+            let mut out = Vec::new();
+            for (i, m) in msgs.iter().enumerate() {
+                let r = match aux.get(i).cloned().flatten() {
+                    Some(mut a) => {
+                        let mut slice: &mut [u8] = &mut a[..];
+                        key.try_sign_with_aux(m, Some(&mut slice))
+                    }
+                    None => key.try_sign_with_aux(m, None),
+                };
+                out.push((r.ok().map(|s| s.as_ref().to_vec()), key.as_slice().to_vec()));
+            }
+            Ok(out)
+        })
+    })
+}
+
 #[derive(Clone, Copy, Debug, PartialEq, Eq)]
 pub enum VerifyEntry {
     /// hbs_lms::verify::<H>(msg, sig, pk)
